@@ -13,6 +13,10 @@ mod c05;
 mod hist;
 mod c06;
 mod c07;
+mod c09;
+mod c09cli;
+mod c10;
+mod progs;
 mod asm;
 mod machine;
 mod grammar;
@@ -52,6 +56,8 @@ fn main() {
         "C05" => "C05",
         "C06" => "C06",
         "C07" => "C07",
+        "C09" => "C09",
+        "C10" => "C10",
         _ => usage(),
     };
     let ctx = Ctx::new(prop, tier, seed);
@@ -63,6 +69,8 @@ fn main() {
         "C05" => c05::run(&ctx),
         "C06" => c06::run(&ctx),
         "C07" => c07::run(&ctx),
+        "C09" => c09::run(&ctx),
+        "C10" => c10::run(&ctx),
         _ => unreachable!(),
     }
     std::process::exit(ctx.finish());
@@ -89,6 +97,7 @@ fn replay(path: &str) -> i32 {
         "jcc" => c06::replay(&v),
         "l1" => l1::replay(&v),
         "seq" => hist::replay(&v),
+        "c10" => c10::replay(&v),
         _ => Err(format!("unknown replay kind '{}'", kind)),
     };
     match r {
